@@ -4,6 +4,7 @@ import base64
 import binascii
 import datetime
 import re
+from decimal import Decimal
 
 from .utils import parse_into_datetime
 
@@ -79,7 +80,13 @@ class FloatConstant(_Constant):
             raise ValueError("must be a float.")
 
     def __str__(self):
-        return "%s" % self.value
+        text = "%s" % self.value
+        if "e" in text:
+            # repr() uses exponent notation below 1e-4 and from 1e16; the pattern grammar has none
+            text = format(Decimal(text), "f")
+            if "." not in text:
+                text += ".0"
+        return text
 
 
 class BooleanConstant(_Constant):
